@@ -220,6 +220,13 @@ def run(prog, chk):
                 r4.violation(fn.file, fn.name, line, "anomaly:" + kind, "%s at L%s" % (kind, line))
     chk.extra_cov["iterator_users"] = [f.key for f in users]
 
+    # ---------------- R5 hash iterations (a packet is delivered with a value for every item of the loop)
+    r5 = chk.rule("R5-hash-iteration-intact", "no HASH_ITER body writes the iteration's look-ahead variable (next_packet moves every "
+                  "remaining entry into the caller's packet; clean-up and serialisation visit every entry)", primary=False, floor=8)
+    from .. import memrules
+    if memrules.hash_iter_lookahead(prog, r5) < 8:
+        raise Broken("fewer than 8 HASH_ITER loops found")
+
 
 def _ok_exit_store(prog, a, rule, fn, field, rhs_pred, what):
     it = a.results[fn.key]
